@@ -4,7 +4,10 @@ import os, random
 from common import *
 
 NAMES = ["a", "b.gmi", "sub", "index.gmi", "index.gemini", "a b.gmi", "é.gmi", "%41.txt", "x;y.txt", "dot.", ".hidden", "UP.GMI", "d2", "L" * 90 + ".gmi",
-         "admin", "pub", "secret.gmi", "c.gemini", "noext"]
+         "admin", "pub", "secret.gmi", "c.gemini", "noext",
+         # names that differ only by Unicode normalisation form (decomposed / precomposed / compatibility characters): different
+         # byte strings, different files
+         "cafe\u0301.gmi", "caf\u00e9.gmi", "u\u0308ber.txt", "\u00fcber.txt", "\u212bngstrom.txt", "\u00c5ngstrom.txt", "\ufb01le.gmi", "file.gmi"]
 
 def comps(p):
     return [c for c in p.split("/") if c != ""]
